@@ -120,6 +120,8 @@ func cmdDump(args []string) int {
 		}
 		fmt.Println("dispatch sites:", len(lm.handlerDynSites))
 		fmt.Println("problems:", lm.problems)
+	case "schema":
+		dumpSchema(p)
 	case "accesses":
 		// statistics: per field, held sets at each access
 		rm := m.Req()
